@@ -219,6 +219,11 @@ def build(rng, depth=None, custom_data=None, auth_len=None, windows=None, leaf_c
         pad = rng.choice([b"\x00", b"\x00\x00\x00", b" ", b"\n", b"\xff", b"\x00" * 8])
         n = len(m.auth_data)
         m.auth_data = (m.auth_data + pad)[-n:] if k < 0.18 else (pad + m.auth_data)[:n]
+    if len(m.auth_data) >= 160 and rng.random() < 0.35:
+        # opaque bytes of little variety: one value repeated for hundreds of bytes, or a short
+        # pattern (whatever cuts such data into pieces gets several identical pieces in a row)
+        m.auth_data = (rng.choice([bytes(1), b"\xff", b"A", rng.randbytes(1), rng.randbytes(2),
+                                   bytes(range(79))]) * 1000)[:len(m.auth_data)]
     att_xy = xy(m.att_key.public_key())
     if len(m.auth_data) >= 8 and rng.random() < 1 / 6:
         # ... and one commitment to the attestation key in six likewise
